@@ -104,6 +104,30 @@ def main():
             s.case(None, ("set", shape, t, f))
             if not np.array_equal(out.data, exp):
                 s.fail(f"set_value:{shape}:{t}:{f}", f"set_value_at_pos on shape {shape} with {q} changed the wrong cells")
+    # arrays whose coordinate order differs from their dimension order (transposed; coords given in another order; an extra
+    # scalar coordinate): the position is looked up per NAMED dimension
+    tcs, fcs = np.arange(5) * 0.5, np.arange(4) * 100.0
+    base = xr.DataArray(np.zeros((5, 4)), dims=("time", "frequency"), coords={"time": tcs, "frequency": fcs})
+    variants = {"transposed": base.transpose("frequency", "time"),
+                "coords-reversed": xr.DataArray(np.zeros((5, 4)), dims=("time", "frequency"), coords={"frequency": fcs, "time": tcs}),
+                "scalar-coord-first": xr.DataArray(np.zeros((5, 4)), dims=("time", "frequency"), coords={"channel": 0, "time": tcs, "frequency": fcs})}
+    for vname, arr in variants.items():
+        for q in ({"time": 0.7}, {"frequency": 250.0}, {"time": 2.0, "frequency": 0.0}, {"time": 0.0, "frequency": 300.0}):
+            s.case(None, ("set-order", vname, tuple(sorted(q.items()))))
+            try:
+                out = set_value_at_pos(arr.copy(deep=True), 7.0, **q)     # the function writes in place: a fresh copy per query
+            except Exception as e:
+                s.fail(f"set_value_raises:{vname}:{type(e).__name__}", f"set_value_at_pos on the {vname} array with {q} raised {type(e).__name__}: {str(e)[:120]}")
+                continue
+            exp = xr.zeros_like(arr)
+            sel = {}
+            if "time" in q:
+                sel["time"] = int(q["time"] // 0.5)
+            if "frequency" in q:
+                sel["frequency"] = int(q["frequency"] // 100.0)
+            exp[sel] = 7.0
+            if out.dims != arr.dims or not np.array_equal(out.data, exp.data):
+                s.fail(f"set_value_order:{vname}", f"set_value_at_pos on the {vname} array with {q} changed the wrong cells")
     return s.finish("one case per (start, step, n, construction of stop) and per query; distinct by inputs")
 
 
